@@ -41,7 +41,10 @@ def sample_counts(k, n, M, seed, companions=0):
         for t in range(1, n + 1):
             for c in comp[: companions // 2 + 1] if companions else []:
                 c.update({"id": t})
-            st.update({"id": t}, "y%d" % t)
+            if targets and _ % 4 == 3 and t % 3 == 0:
+                st.update({"id": t}) if t % 2 else st.update({"id": t}, None)     # an arrival without a target is an arrival
+            else:
+                st.update({"id": t}, "y%d" % t)
             if _ % 3 == 1:
                 st.get_data(), len(st)       # reading the content between updates changes nothing
             for c in comp[companions // 2 + 1:] if companions else []:
@@ -50,7 +53,7 @@ def sample_counts(k, n, M, seed, companions=0):
                 GS.make("uniform", k, False)       # a decoy created while the others are mid-stream
         xs, ys = st.get_data()
         key = frozenset(x["id"] for x in xs)
-        if targets and [("y%d" % x["id"]) for x in xs] != list(ys):
+        if targets and [(None if (_ % 4 == 3 and x["id"] % 3 == 0) else "y%d" % x["id"]) for x in xs] != list(ys):
             key = frozenset({-1})      # an (instance, target) pair that never occurred in the stream: not a subset of it
         cnt[key] = cnt.get(key, 0) + 1
     return cnt
